@@ -124,3 +124,46 @@ package keeper
 //@   modifies Metadata[dataId], Model[sprintf("%s-%s-%s", Metadata[dataId].Owner, Metadata[dataId].Alias, Metadata[dataId].GroupId)]
 //@   ensures [C09.deletemeta] err == nil ==> old(has(Metadata, dataId)) && !has(Metadata, dataId) && !has(Model, sprintf("%s-%s-%s", old(Metadata[dataId].Owner), old(Metadata[dataId].Alias), old(Metadata[dataId].GroupId)))
 //@   ensures [C09.deletemeta.err] err != nil ==> !old(has(Metadata, dataId)) && !has(Metadata, dataId)
+
+// UpdateMeta applies a completed order to its data model: new version (1), force-push replacing the latest version (2), renewal (3).
+//@ func (Keeper) UpdateMeta(ctx, order) (err)
+//@   requires forall w string :: has(Worker, w) ==> Worker[w].Workername == w
+//@   requires forall c string :: has(Pledge, c) ==> Pledge[c].Creator == c
+//@   requires forall c string :: has(PledgeDebt, c) ==> PledgeDebt[c].Sp == c && PledgeDebt[c].Debt.Amount >= 0
+//@   requires forall i int :: 0 <= i && i <= MaxUint64 && has(Shard, i) ==> Shard[i].Id == i && Shard[i].Pledge.Amount >= 0
+//@   requires forall c string :: has(DidBalances, c) ==> DidBalances[c].Did == c
+//@   requires forall c string :: has(Metadata, c) ==> Metadata[c].DataId == c
+//@   requires forall h int :: 0 <= h && h <= MaxUint64 && has(ExpiredData, h) ==> ExpiredData[h].Height == h
+//@   requires [C11.sched.once] has(Metadata, order.DataId) && has(ExpiredData, u64(Metadata[order.DataId].CreatedAt + Metadata[order.DataId].Duration)) ==>
+//@       forall i int, j int :: 0 <= i && i < j && j < len(ExpiredData[u64(Metadata[order.DataId].CreatedAt + Metadata[order.DataId].Duration)].Data)
+//@         ==> !(ExpiredData[u64(Metadata[order.DataId].CreatedAt + Metadata[order.DataId].Duration)].Data[i] == order.DataId && ExpiredData[u64(Metadata[order.DataId].CreatedAt + Metadata[order.DataId].Duration)].Data[j] == order.DataId)
+//@   modifies Metadata[order.DataId], Worker, Pledge, PledgeDebt, Bank, Order, DidBalances, Shard, ExpiredData
+//@   ensures [C09.updatemeta.auth] err == nil ==> old(has(Metadata, order.DataId))
+//@       && (order.Owner == old(Metadata[order.DataId].Owner) || contains(old(Metadata[order.DataId].ReadwriteDids), order.Owner))
+//@   ensures [C09.updatemeta.perm] err == nil ==> has(Metadata, order.DataId) && Metadata[order.DataId].Owner == old(Metadata[order.DataId].Owner)
+//@       && Metadata[order.DataId].ReadonlyDids == old(Metadata[order.DataId].ReadonlyDids) && Metadata[order.DataId].ReadwriteDids == old(Metadata[order.DataId].ReadwriteDids)
+//@       && Metadata[order.DataId].DataId == order.DataId && Metadata[order.DataId].Status == MetaComplete
+//@   ensures [C16.updatemeta.append] err == nil && order.Operation == 1 ==> len(Metadata[order.DataId].Commits) == len(old(Metadata[order.DataId].Commits)) + 1
+//@       && Metadata[order.DataId].Commits[len(old(Metadata[order.DataId].Commits))] == Version(order.Commit, H)
+//@       && (forall j int :: 0 <= j && j < len(old(Metadata[order.DataId].Commits)) ==> Metadata[order.DataId].Commits[j] == old(Metadata[order.DataId].Commits)[j])
+//@       && Metadata[order.DataId].Commit == order.Commit
+//@   ensures [C16.updatemeta.forcepush] err == nil && order.Operation == 2 && len(old(Metadata[order.DataId].Commits)) > 0 ==> len(Metadata[order.DataId].Commits) == len(old(Metadata[order.DataId].Commits))
+//@       && Metadata[order.DataId].Commits[len(old(Metadata[order.DataId].Commits)) - 1] == Version(order.Commit, H)
+//@       && (forall j int :: 0 <= j && j < len(old(Metadata[order.DataId].Commits)) - 1 ==> Metadata[order.DataId].Commits[j] == old(Metadata[order.DataId].Commits)[j])
+//@   ensures [C16.updatemeta.renew] err == nil && order.Operation == 3 ==> Metadata[order.DataId].Commits == old(Metadata[order.DataId].Commits) && Metadata[order.DataId].Commit == old(Metadata[order.DataId].Commit)
+//@   loop L1 invariant -1 <= rangeindex && rangeindex < len(metadata.ReadwriteDids)
+//@   loop L1 invariant forall j int :: 0 <= j && j <= rangeindex ==> metadata.ReadwriteDids[j] != order0.Owner
+//@   loop L2 frameexcept metadata
+//@   loop L2 invariant forall w string :: has(Worker, w) ==> Worker[w].Workername == w
+//@   loop L2 invariant forall c string :: has(Pledge, c) ==> Pledge[c].Creator == c
+//@   loop L2 invariant forall c string :: has(PledgeDebt, c) ==> PledgeDebt[c].Sp == c && PledgeDebt[c].Debt.Amount >= 0
+//@   loop L2 invariant forall c string :: has(DidBalances, c) ==> DidBalances[c].Did == c
+//@   loop L2 invariant metadata.Owner == entry(metadata.Owner) && metadata.DataId == entry(metadata.DataId) && metadata.Commits == entry(metadata.Commits) && metadata.Commit == entry(metadata.Commit)
+//@       && metadata.ReadonlyDids == entry(metadata.ReadonlyDids) && metadata.ReadwriteDids == entry(metadata.ReadwriteDids) && metadata.CreatedAt == entry(metadata.CreatedAt)
+//@       && metadata.Duration == entry(metadata.Duration)
+//@   loop L2 decreases [C02.updatemeta.term] len(metadata.Orders)
+//@   loop L3 invariant -1 <= rangeindex
+//@   loop L4 invariant [C01.maporder.forcepush] forall i int :: 0 <= i && i <= MaxUint64 ==> (has(Shard, i) <==> (entry(has(Shard, i)) && !visited(i)))
+//@   loop L4 invariant [C01.maporder.forcepush] forall i int :: 0 <= i && i <= MaxUint64 && has(Shard, i) ==> Shard[i] == entry(Shard[i])
+//@   loop L4 invariant [C01.maporder.forcepush] forall i int :: visited(i) ==> indom(shardSet, i)
+//@   loop L4 ensures [C01.maporder.forcepush] forall i int :: 0 <= i && i <= MaxUint64 ==> (has(Shard, i) <==> (entry(has(Shard, i)) && !indom(shardSet, i)))
